@@ -273,8 +273,17 @@ func (fatalHook) Fire(e *log.Entry) error {
 		return nil
 	}
 	fmt.Fprintf(os.Stderr, "log.Fatal in the code under test: %s %v\n", e.Message, e.Data)
+	// the process is about to exit: leave the finding, with the history that led to it, on disk
+	if c := currentCtx; c != nil {
+		defer func() { recover() }()
+		c.Violate("", "process-died/log-fatal", fmt.Sprintf("the code under test ended the process with log.Fatal: %s %v", e.Message, e.Data), c.History())
+	}
 	return nil
 }
+
+// currentCtx: the context of the engine that runs in this process (nil in child processes, whose
+// death the parent reports)
+var currentCtx *Ctx
 
 type engine struct {
 	name string
@@ -291,7 +300,11 @@ func main() {
 		os.Exit(2)
 	}
 	name := os.Args[1]
+	go memoryWatchdog()
 	log.SetOutput(io.Discard)
+	if os.Getenv("VERIF_LOG") != "" { // debugging aid: the code under test's own log
+		log.SetOutput(os.Stderr)
+	}
 	log.AddHook(fatalHook{})
 	log.StandardLogger().ExitFunc = func(code int) {
 		if atomic.LoadInt32(&shuttingDown) > 0 {
@@ -314,6 +327,7 @@ func main() {
 	}
 	os.MkdirAll(*out, 0755)
 	c := &Ctx{Seed: *seed, Tier: *tier, Out: *out, Args: map[string]string{}, seen: map[string]bool{}}
+	currentCtx = c
 	for _, kv := range fs.Args() {
 		if i := strings.IndexByte(kv, '='); i > 0 {
 			c.Args[kv[:i]] = kv[i+1:]
@@ -338,4 +352,26 @@ func main() {
 	}
 	fmt.Fprintln(os.Stderr, "unknown engine", name)
 	os.Exit(2)
+}
+
+
+// memoryWatchdog ends the process when its heap grows beyond VERIF_MEM_GB (default 12 GiB): code
+// under test that allocates by a number it read from a corrupt stream must not take the machine
+// down. The death is reported like any other death of the process running the code under test
+// (violations found so far are on disk already).
+func memoryWatchdog() {
+	limit := uint64(12)
+	if v := os.Getenv("VERIF_MEM_GB"); v != "" {
+		fmt.Sscan(v, &limit)
+	}
+	limit <<= 30
+	var ms runtime.MemStats
+	for {
+		time.Sleep(300 * time.Millisecond)
+		runtime.ReadMemStats(&ms)
+		if ms.HeapInuse+ms.StackInuse > limit {
+			fmt.Fprintf(os.Stderr, "fatal error: verif memory limit exceeded: %d MiB in use (limit %d MiB): the code under test allocates without bound\n", (ms.HeapInuse+ms.StackInuse)>>20, limit>>20)
+			os.Exit(86)
+		}
+	}
 }
